@@ -65,6 +65,9 @@ def run_for(ctx, prop):
                 (ctx._ded['failed'] if owner == prop else ctx._ded['foreign_failed']).append((q, o, owner))
     if not ctx.obligations and any('extraction failure' != f.get('status') for f in ctx.functions):
         pass
+    if ctx.tier == 'thorough':
+        from ..pyvc import planted
+        planted.run_for(ctx, prop)
     from ..pyvc.run import TRUSTED
     for t in TRUSTED.get(prop, []) + TRUSTED['*']:
         if t not in ctx.trusted:
